@@ -191,6 +191,33 @@ def run(F, R, tier):
             if c.get("k") in ("call", "mcall") and (cal.startswith("std::io::BufWriter") or cal.startswith("std::io::BufReader")) and H.last(cal) in BYPASS:
                 byp.append("%s: %s" % (p, cal))
     R.ob("no-buffer-bypass", "the builtins never reach under a handle's BufReader / BufWriter", not byp, "; ".join(byp)[:300])
+    # a read asks the operating system every time: the only state between two reads of a handle is the handle's own
+    # BufReader.  (a) a file handle holds a std BufReader<File> / BufWriter<File> and nothing else — a wrapper with an
+    # "end of file seen" flag answers later reads from the flag; (b) the I/O builtins use no process-wide or
+    # thread-local state (a sticky "stdin is at end of input" flag set by a zero-length read ends all later reads)
+    fh = F.adts.get("object::file::FileHandle")
+    if R.anchor("enum object::file::FileHandle", fh):
+        tys = {v["name"]: [fl.get("ty") for fl in v.get("fields", [])] for v in fh.get("variants", [])}
+        want = {"Reader": ["std::cell::RefCell<std::io::BufReader<std::fs::File>>"], "Writer": ["std::cell::RefCell<std::io::BufWriter<std::fs::File>>"]}
+        R.ob("handle-state", "a file handle is a std BufReader<File> / BufWriter<File> and nothing else",
+             all(tys.get(k) == v for k, v in want.items()), "FileHandle variants: %s" % {k: tys.get(k) for k in want})
+    from .lib import mir as M
+    from .lib.tables import builtin_table
+    tab = dict(builtin_table(F, R) or [])
+    roots = [tab[n] for n in ("open", "read", "read_line", "read_to_string", "write", "flush") if n in tab]
+    reach = M.CallGraph(F).reachable_from(roots)
+    hidden = []
+    for p in sorted(reach):
+        g = F.fns.get(p)
+        b = H.body_of(g) if g else None
+        if b is None or not (g["file"].endswith("builtins/functions.rs") or g["file"].endswith("object/file.rs")):
+            continue
+        for x in H.walk(b):
+            if x.get("k") in ("call", "mcall") and "std::thread::LocalKey" in (x.get("callee") or ""):
+                hidden.append("%s: thread-local %s" % (H.last(p), H.last(x["callee"])))
+            if x.get("k") == "path" and x.get("res", {}).get("r") == "static" and not str(x["res"].get("path", "")).startswith(("code::", "parser::", "scanner::")):
+                hidden.append("%s: static %s" % (H.last(p), x["res"].get("path")))
+    R.ob("handle-state", "the file builtins keep no state outside the handle (no statics, no thread-locals)", not hidden, "; ".join(sorted(set(hidden)))[:300])
     # reads use the stored reader: builtin_read / read_line / read_to_string borrow the handle's reader
     for fn in ("builtin_read", "builtin_read_line", "builtin_read_to_string"):
         g = F.fn(BF + fn)
